@@ -89,7 +89,7 @@ fn plain_histories(cx: &mut Ctx, eng: &mut Engine, idx: &mut u64) {
     let page = eng.page;
     let lens = [1usize, 16, 64, 100, 3000, page - 1, page, page + 1, 2 * page + 7, 3 * page + 100, 5 * page];
     for &len in &lens {
-        for variant in 0..10usize {
+        for variant in 0..12usize {
             *idx += 1;
             if !cx.mine(*idx) {
                 continue;
@@ -123,6 +123,17 @@ fn plain_histories(cx: &mut Ctx, eng: &mut Engine, idx: &mut u64) {
                             h.resize(len + k * 777, 0xC3);    // repeated growth
                         }
                     }
+                    10 | 11 => {
+                        // released while a panic unwinds: spare capacity holds the old tail; a second, locked (10) or
+                        // read-only (11) region is alive in the same scope
+                        h.resize(len / 2, 0);
+                        let _other = if variant == 10 {
+                            HeapBytes::from_slice_into_locked(&pat).ok().map(|r| Box::new(r) as Box<dyn std::any::Any>)
+                        } else {
+                            HeapBytes::from_slice_into_locked(&pat).ok().and_then(|r| r.munlock().ok()).and_then(|r| r.mprotect_readonly().ok()).map(|r| Box::new(r) as Box<dyn std::any::Any>)
+                        };
+                        panic!("harness/src/: unwinding with live containers (on purpose)");
+                    }
                     8 => {
                         h.resize((len / 3).max(1), 0);        // shrink (possibly within the same page count) ...
                         let l = h.mlock();                    // ... then lock and release
@@ -150,7 +161,7 @@ fn plain_histories(cx: &mut Ctx, eng: &mut Engine, idx: &mut u64) {
                 drop(h);
             });
             let _ = r;
-            cx.cover("plain_history", &format!("HeapBytes:{}", ["drop", "grow", "shrink", "grow_then_shrink", "clone", "truncate", "repeated_growth", "lock_unlock_noaccess", "shrink_then_lock", "shrink_regrow_lock_unlock"][variant]));
+            cx.cover("plain_history", &format!("HeapBytes:{}", ["drop", "grow", "shrink", "grow_then_shrink", "clone", "truncate", "repeated_growth", "lock_unlock_noaccess", "shrink_then_lock", "shrink_regrow_lock_unlock", "dropped_by_unwinding(locked sibling)", "dropped_by_unwinding(read-only sibling)"][variant]));
             check_releases(cx, eng, "HeapBytes history", "HeapBytes", true);
         }
     }
